@@ -550,47 +550,75 @@ def helper_arms_slot(ctx, g, si, ai, ti):
 
 
 def peek_nonstrict(ctx, rep, rid, fname, what):
-    """the eligibility test of a peek loop includes slots due exactly now (t >= current_time, not t > current_time)"""
+    """peek over the per-machine slots: slots due exactly now are eligible (t >= current_time, not t > current_time), every
+    present slot of both sides is examined, and the result is their minimum.  Loop form and iterator-chain form are accepted."""
     prog, an = ctx.prog, ctx.an
     fn = sim_fn(prog, fname)
     fa = an.get(fn)
     rep.analysed(fn)
+    scopes = [fn] + prog.closures_of(fn)
+    for c in list(scopes):
+        scopes += [x for x in prog.closures_of(c) if x not in scopes]
     n = 0
-    for (b, e) in switch_conditions(fa):
-        e2 = strip_sites(e)
-        ops = None
-        if e2[0] == 'call' and any(e2[1].endswith(x) for x in ('PartialOrd::ge', 'PartialOrd::gt', 'PartialOrd::le', 'PartialOrd::lt')):
-            ops = (e2[1].split('::')[-1], e2[2][0], e2[2][1])
-        elif e2[0] == 'bin' and e2[1] in ('Ge', 'Gt', 'Le', 'Lt'):
-            ops = (e2[1].lower(), e2[2], e2[3])
-        if ops is None:
-            continue
-        op, l, r = ops
-        involves_now = lambda x: contains(x, lambda y: y == ('param', 3))
-        is_dur = lambda x: contains(x, lambda y: is_call(y, 'duration_since'))
-        if (involves_now(l) or involves_now(r)) and not (is_dur(l) or is_dur(r)):
+    is_dur = lambda x: contains(x, lambda y: is_call(y, 'duration_since'))
+
+    def judge(op, l, r, now_pred, where):
+        nonlocal n
+        if (now_pred(l) or now_pred(r)) and not (is_dur(l) or is_dur(r)):
             n += 1
-            # slot time on one side, current_time on the other
-            ok = (op == 'ge' and involves_now(r)) or (op == 'le' and involves_now(l))
-            rep.ob(rid, fn, 'due-now-is-eligible', ok, '%s compares the slot time with current_time using %s' % (fname, op))
-    rep.count_exact(rid, 'eligibility comparisons in ' + fname, n, 2)
-    # the result is the minimum over ALL slots: loops run to exhaustion, no short-circuiting search
+            ok = (op == 'ge' and now_pred(r)) or (op == 'le' and now_pred(l))
+            rep.ob(rid, fn, 'due-now-is-eligible', ok, '%s compares the slot time with current_time using %s (%s)' % (fname, op, where))
+    for sc in scopes:
+        sa_ = an.get(sc)
+        exprs = [e for (b, e) in switch_conditions(sa_)]
+        if sc is not fn:
+            exprs += [v for (b, k, v) in ret_defs(sa_)]
+        for e in exprs:
+            e2 = strip_sites(e)
+            ops = None
+            if e2[0] == 'call' and any(e2[1].endswith(x) for x in ('PartialOrd::ge', 'PartialOrd::gt', 'PartialOrd::le', 'PartialOrd::lt')):
+                ops = (e2[1].split('::')[-1], e2[2][0], e2[2][1])
+            elif e2[0] == 'bin' and e2[1] in ('Ge', 'Gt', 'Le', 'Lt'):
+                ops = (e2[1].lower(), e2[2], e2[3])
+            if ops is None:
+                continue
+            if sc is fn:
+                now_pred = lambda x: contains(x, lambda y: y == ('param', 3))
+            else:
+                # inside a closure: current_time is a captured variable (environment = parameter 1), the slot is the item (parameter 2)
+                now_pred = lambda x: contains(x, lambda y: y in (('param', 1), ('local', 1))) and not contains(x, lambda y: y in (('param', 2), ('local', 2)))
+            judge(ops[0], ops[1], ops[2], now_pred, 'loop' if sc is fn else 'closure')
     loops = fa.cfg.loops()
-    for h, body in loops.items():
-        exits_ok = all(fa.blocks[y]['t']['k'] == 'unreachable' or (fa.blocks[x]['t']['k'] == 'switch' and x in body and any(
-            isinstance(l, tuple) for l in [lab])) for x in body for (y, lab) in fa.cfg.succ[x] if y not in body)
-        # exits only from the block that tests the iterator's next() result
-        bad = []
-        for x in body:
-            for (y, lab) in fa.cfg.succ[x]:
-                if y in body or fa.blocks[y]['t']['k'] == 'unreachable':
-                    continue
-                e = fa.operand(fa.blocks[x]['t']['d'], (x, len(fa.blocks[x]['s']))) if fa.blocks[x]['t']['k'] == 'switch' else None
-                if not (e is not None and e[0] == 'discr' and is_call(unload(e[1]), 'next')):
-                    bad.append(x)
-        rep.ob(rid, fn, 'every-slot-examined@L%d' % fa.blocks[h]['ln'], not bad, 'loop leaves before its iterator is exhausted' if bad else 'loop runs to exhaustion', site='%s:%d' % (fn.file, fa.blocks[h]['ln']))
-    rep.count_exact(rid, 'slot loops in ' + fname, len(loops), 2)
-    short = [callee_str(f) for scope in [fn] + prog.closures_of(fn) for (b, f, a, t) in calls(an.get(scope))
+    if loops:
+        rep.count_exact(rid, 'eligibility comparisons in ' + fname, n, 2)
+        for h, body in loops.items():
+            bad = []
+            for x in body:
+                for (y, lab) in fa.cfg.succ[x]:
+                    if y in body or fa.blocks[y]['t']['k'] == 'unreachable':
+                        continue
+                    e = fa.operand(fa.blocks[x]['t']['d'], (x, len(fa.blocks[x]['s']))) if fa.blocks[x]['t']['k'] == 'switch' else None
+                    if not (e is not None and e[0] == 'discr' and is_call(unload(e[1]), 'next')):
+                        bad.append(x)
+            rep.ob(rid, fn, 'every-slot-examined@L%d' % fa.blocks[h]['ln'], not bad, 'loop leaves before its iterator is exhausted' if bad else 'loop runs to exhaustion', site='%s:%d' % (fn.file, fa.blocks[h]['ln']))
+        rep.count_exact(rid, 'slot loops in ' + fname, len(loops), 2)
+    else:
+        # iterator-chain form: the minimum must be taken over the PRESENT slots (flatten/filter_map before min), for both sides
+        rep.count_floor(rid, 'eligibility comparisons in ' + fname, n, 1)
+        mins = []
+        for sc in scopes:
+            for (b, f, a, t) in calls(an.get(sc)):
+                cs = callee_str(f)
+                if cs.endswith('Iterator::min') or cs.endswith('Iterator::min_by') or cs.endswith('Iterator::min_by_key') or cs.endswith('Iterator::fold') or cs.endswith('Iterator::reduce'):
+                    mins.append((sc, a))
+        rep.ob(rid, fn, 'minimum-taken', bool(mins), 'min/fold calls: %d' % len(mins))
+        for (sc, a) in mins:
+            recv = a[0]
+            present_only = contains(recv, lambda y: is_call(y, 'Iterator::flatten') or is_call(y, 'Iterator::filter_map') or is_call(y, 'Iterator::flat_map'))
+            over_slots = contains(recv, lambda y: is_call(y, '<impl [T]>::iter'))
+            if over_slots:
+                rep.ob(rid, fn, 'minimum-over-present-slots-only', present_only, 'min over %s' % shape(recv)[:70])
+    short = [callee_str(f) for scope in scopes for (b, f, a, t) in calls(an.get(scope))
              if any(callee_str(f).endswith(x) for x in ('::find', '::find_map', '::position', '::take_while', '::skip_while', '::any', '::all', '::nth', '::last', '::first'))]
     rep.ob(rid, fn, 'no-short-circuiting-search', not short, '%s' % short)
 
@@ -806,6 +834,54 @@ def check_C17(ctx, rep):
 
 # =================================================================== C18
 
+def check_timer_helper(ctx, rep, tu, fa, pf, h, body, arms, helper_calls):
+    """UpdateTimer handled through helper(&mut slot, expiry, replace) -> started: the helper must start the timer (store
+    Some(expiry) and return true) on every path with replace / no timer / later expiry, return true only when it stored,
+    and the arm must push TimerBegin exactly when the helper returned true"""
+    prog, an = ctx.prog, ctx.an
+    rep.ob('C18.R1', tu, 'one-helper-call', len(helper_calls) == 1, '%d' % len(helper_calls))
+    (cb, g, a, si) = helper_calls[0]
+    ei = [i for i, x in enumerate(a) if contains(x, lambda y: y == ('param', 3)) and contains(x, lambda y: action_field(y, 'UpdateTimer', 'duration'))]
+    ri = [i for i, x in enumerate(a) if action_field(x, 'UpdateTimer', 'replace')]
+    ok_args = len(ei) == 1 and len(ri) == 1
+    rep.ob('C18.R1', tu, 'helper-gets-slot-expiry-replace', ok_args, '%s(%s)' % (g.name, ', '.join(show(x)[:30] for x in a)))
+    if not ok_args:
+        return
+    ps, pe_, pr = si + 1, ei[0] + 1, ri[0] + 1
+    ga = an.get(g)
+    is_slot = lambda x: root_of(x) == ('param', ps) or unload(x) == ('deref', ('param', ps))
+    gp = an.paths(g, history=True, record_stores=lambda pe2, val: is_slot(pe2), tag='slot')
+    nret = 0
+    for (b, k, v) in ret_defs(ga):
+        for S in gp.at(b, k):
+            nret += 1
+            st = [f for f in S if f[0] == 'stored']
+            replace = any(f[0] == 'btrue' and f[2] is True and f[1] == ('param', pr) for f in S)
+            no_timer = any(f[0] == 'variant' and f[2] == 'None' and is_slot(f[1]) for f in S)
+            running = any(f[0] == 'variant' and f[2] == 'Some' and is_slot(f[1]) for f in S)
+            later = any(f[0] == 'cmp' and f[1] == 'lt' and f[5] is True and contains(f[2], lambda y: isinstance(y, tuple) and y and y[0] == 'var' and y[2] == 'Some' and is_slot(y[1])) and f[3] == ('param', pe_) for f in S)
+            if replace or no_timer or later:
+                why = 'replace' if replace else ('no timer running' if no_timer else 'later expiry')
+                rep.ob('C18.R3', g, 'timer-started-when:%s' % why.replace(' ', '-'), bool(st) and is_const(v, 1), 'helper path with %s: stored %s, returns %s' % (why, bool(st), shape(v)))
+            rep.ob('C18.R3', g, 'not-started-only-while-a-timer-runs', bool(st) or running, '')
+            if is_const(v, 1) or num(v) is None:
+                rep.ob('C18.R1', g, 'reports-started-only-when-stored', bool(st) and num(v) is not None, 'returns %s with stored=%s' % (shape(v), bool(st)))
+            for f in st:
+                okv = f[3][0] == 'agg' and f[3][2] == 'Some' and dict(f[3][3])['0'] == ('param', pe_)
+                rep.ob('C18.R1', g, 'expiry-is-now-plus-duration', okv, 'stores %s' % shape(f[3]))
+    rep.count_floor('C18.R1', 'return paths of the timer helper', nret, 2)
+    # the arm pushes TimerBegin exactly when the helper reported a start
+    for (x, lab) in fa.cfg.pred[h]:
+        if x not in body:
+            continue
+        for S in pf.on_edge(x, h):
+            if not any(f[0] == 'variant' and f[2] == 'UpdateTimer' for f in S):
+                continue
+            pushed = any(f[0] == 'called' and f[1].endswith('push_sim') and fa.cfg.dominates(arms['UpdateTimer'], f[3]) for f in S)
+            started = any(f[0] == 'bcall' and f[3] is True and f[1].endswith('::' + g.name) for f in S)
+            rep.ob('C18.R1', tu, 'store-and-TimerBegin-on-same-paths', pushed == started, 'helper reported start: %s, TimerBegin pushed: %s' % (started, pushed))
+
+
 def check_C18(ctx, rep):
     prog, an = ctx.prog, ctx.an
     rep.rule('C18.R1', 'UpdateTimer arm of trigger_update: the slot store (current_time + duration, for the action\'s machine) and the push of '
@@ -830,8 +906,20 @@ def check_C18(ctx, rep):
     rc = lambda f: callee_str(f).endswith('SimQueue::push_sim')
     pf = an.paths(tu, history=True, record_stores=rs, record_calls=rc, tag='timer', entry=h)
     n = 0
+    # helper form: the start rule may live in a private helper(&mut slot, expiry, replace) -> bool
+    helper_calls = []
+    for (b, f, a, t) in calls(fa):
+        g = prog.fns.get(callee_key(f)) if f.get('resolved') else None
+        if g is not None and g.crate == SIM and g.vis != 'Public' and fa.cfg.dominates(arms['UpdateTimer'], b) and g.output == 'bool':
+            si = [i for i, x in enumerate(a) if x[0] == 'ref' and slot_index_ok(x[1], 'scheduled_internal_timer', 'UpdateTimer')]
+            if si:
+                helper_calls.append((b, g, a, si[0]))
+    direct = [sx for (pe_, v_, sx) in field_stores(fa, 'scheduled_internal_timer', 'SimState') if fa.cfg.dominates(arms['UpdateTimer'], sx[0])]
+    if helper_calls and not direct:
+        check_timer_helper(ctx, rep, tu, fa, pf, h, body, arms, helper_calls)
+        n = 2
     for (x, lab) in fa.cfg.pred[h]:
-        if x not in body:
+        if x not in body or (helper_calls and not direct):
             continue
         for S in pf.on_edge(x, h):
             if not any(f[0] == 'variant' and f[2] == 'UpdateTimer' for f in S):
